@@ -521,6 +521,42 @@ func checkOccurrenceShortcut(c *Ctx, p *core.Prog) {
 			}
 		}
 	}
+	// (c) every reported occurrence is a Match of its own: the value pushed on the queue is allocated in the iteration
+	// that pushes it (one variable hoisted out of the loop makes all entries alias the last occurrence)
+	for _, f := range core.WithAnon(fm) {
+		for _, lit := range structLits([]*ssa.Function{f}, "stringclassifier.Match") {
+			if _, ok := isBound(lit.fields["Offset"]); !ok {
+				continue
+			}
+			// the loop over the occurrences: innermost loop containing a store into the literal
+			var useBlock *ssa.BasicBlock
+			for _, r := range *lit.alloc.Referrers() {
+				if fa, ok := r.(*ssa.FieldAddr); ok {
+					useBlock = fa.Block()
+				}
+			}
+			if useBlock == nil {
+				continue
+			}
+			okAlloc := true
+			for h := useBlock; h != nil; h = h.Idom() {
+				isHeader := false
+				for _, pr := range h.Preds {
+					if h.Dominates(pr) {
+						isHeader = true
+					}
+				}
+				if !isHeader || !reaches(useBlock, h) {
+					continue
+				}
+				if !(h.Dominates(lit.alloc.Block()) && reaches(lit.alloc.Block(), h)) {
+					okAlloc = false
+				}
+			}
+			c.R.Check(okAlloc, "R13.4", "findMatches: every exact occurrence is reported as a Match of its own", p.Pos(lit.alloc.Pos()), "the Match is allocated in the iteration that fills it",
+				"one Match variable is declared outside the loop over the occurrences and its address is queued every time: all queued entries are the same object and show the last occurrence, so the other verbatim copies are not reported")
+		}
+	}
 	if nTok == 0 {
 		c.R.Check(okB, "R13.4", "findMatches: an exact occurrence is reported with the byte range the regular expression delimits", p.Pos(occ.Pos()),
 			"Match{Offset: a[0], Extent: a[last]-a[0]} for every occurrence a", "no match is built from the byte bounds of the occurrence")
